@@ -42,18 +42,18 @@ class G(Generic[TV]):
 NT = NewType("NT", int)
 
 
-@dataclasses.dataclass
+@dataclasses.dataclass(frozen=True)
 class M1:
     a: int
     b: str
 
 
-@dataclasses.dataclass
+@dataclasses.dataclass(frozen=True)
 class M2:
     a: int
 
 
-@dataclasses.dataclass
+@dataclasses.dataclass(frozen=True)
 class M3:
     a: str
     c: int = 0
@@ -81,6 +81,8 @@ def hint(t: dict) -> Any:
         return Union[tuple(args)]
     if k == "tuple_var":
         return Tuple[args[0], ...]
+    if k in ("tuple1", "tuple2"):
+        return Tuple[tuple(args)]
     if k in ITER:
         return ITER[k][args[0]]
     if k in ("dict", "Mapping"):
@@ -95,6 +97,8 @@ def wrap(ctx: str, t: dict) -> dict:
         return {"k": "union", "a": [t, {"k": "None", "a": [], "v": []}], "v": []}
     if ctx == "list":
         return {"k": "list", "a": [t], "v": []}
+    if ctx == "dictkey":
+        return {"k": "dict", "a": [t, {"k": "int", "a": [], "v": []}], "v": []}
     return {"k": "dict", "a": [{"k": "str", "a": [], "v": []}, t], "v": []}
 
 
@@ -144,7 +148,9 @@ def sample_values(t: dict) -> list:
             out += sample_values(a)
         return out
     if k in ("dict", "Mapping"):
-        return [{}] + [{kk: vv} for kk in sample_values(t["a"][0])[:1] for vv in sample_values(t["a"][1])]
+        return [{}] + [{kk: vv} for kk in sample_values(t["a"][0])[:2] for vv in sample_values(t["a"][1])[:2]]
+    if k in ("tuple1", "tuple2"):
+        return [tuple(sample_values(a)[0] for a in t["a"])]
     elems = sample_values(t["a"][0])
     ctor = {"list": list, "set": set, "frozenset": frozenset, "deque": collections.deque, "tuple_var": tuple, "Sequence": list, "Iterable": list}[k]
     try:
@@ -186,6 +192,8 @@ def conforms(v: Any, t: dict) -> bool:
         return any(conforms(v, a) for a in t["a"])
     if k in ("dict", "Mapping"):
         return isinstance(v, dict) and all(conforms(kk, t["a"][0]) and conforms(vv, t["a"][1]) for kk, vv in v.items())
+    if k in ("tuple1", "tuple2"):
+        return isinstance(v, tuple) and len(v) == len(t["a"]) and all(conforms(e, a) for e, a in zip(v, t["a"]))
     want = {"list": list, "set": set, "frozenset": frozenset, "deque": collections.deque, "tuple_var": tuple, "Sequence": (list, tuple),
             "Iterable": (list, tuple, set, frozenset)}[k]
     return isinstance(v, want) and all(conforms(e, t["a"][0]) for e in v)
